@@ -154,7 +154,7 @@ def run(ctx):
         for ci in range(ctx.n(25, 300)):
             nn = int(rng.integers(1, 8))
             nl = navis.NeuronList([F.mk_neuron(F.gen_forest(rng, 3, 25, roots=1, lattice=False, zero_edges=False), name='n%d' % j, nid=j + 1) for j in range(nn)])
-            which = str(rng.choice(['apply', 'prune_twigs', 'prune_at_depth', 'omit']))
+            which = str(rng.choice(['apply', 'prune_twigs', 'prune_at_depth', 'omit', 'omit_inplace', 'method']))
             chunk = int(rng.integers(1, nn + 2))
             desc = dict(case=which, n=nn, chunksize=chunk)
             if which == 'apply':
@@ -187,6 +187,28 @@ def run(ctx):
                 else:
                     ok = ser[0] == 'ok' and par[0] == 'ok' and all(i[0] == 'ok' for i in ind) and tab(ser[1]) == tab(par[1]) == tab([i[1] for i in ind])
                 detail = dict(sources=src, serial=str(ser[1])[:200], parallel=str(par[1])[:200])
+            elif which == 'omit_inplace':
+                # a decorated function run in place with omit_failures: the list itself ends up holding the survivors only,
+                # identically serial and parallel (a non-existent `source` makes prune_at_depth fail for that neuron)
+                src = [int(n.nodes.node_id.values[0]) for n in nl]
+                badix = sorted(int(v) for v in rng.choice(nn, size=int(rng.integers(0, nn)), replace=False)) if nn > 1 else []
+                for b_ in badix:
+                    src[b_] = 10 ** 9
+                mk_ = lambda: navis.NeuronList([n.copy() for n in nl])
+                a_, b_nl = mk_(), mk_()
+                ser = guarded(navis.prune_at_depth, a_, depth=6.5, source=src, inplace=True, omit_failures=True)
+                par = guarded(navis.prune_at_depth, b_nl, depth=6.5, source=src, inplace=True, omit_failures=True, parallel=True, n_cores=2)
+                exp = [n.id for j, n in enumerate(nl) if j not in badix]
+                ok = nn == 1 or (ser[0] == 'ok' and par[0] == 'ok' and [n.id for n in a_] == exp and [n.id for n in b_nl] == exp)
+                detail = dict(failing_positions=badix, serial=[n.id for n in a_], parallel=[n.id for n in b_nl], expected=exp)
+            elif which == 'method':
+                # NeuronList METHOD calls are dispatched to each neuron's own bound method, serially and in parallel
+                ser = guarded(lambda: nl.prune_by_strahler(1, inplace=False))
+                par = guarded(lambda: nl.prune_by_strahler(1, inplace=False, parallel=True, n_cores=2))
+                ind = [guarded(lambda n=n: n.prune_by_strahler(1, inplace=False)) for n in nl]
+                tab = lambda r: [(n.id, sorted(int(i) for i in n.nodes.node_id.values)) for n in r]
+                ok = ser[0] == 'ok' and par[0] == 'ok' and all(i[0] == 'ok' for i in ind) and tab(ser[1]) == tab(par[1]) == tab([i[1] for i in ind])
+                detail = dict(serial=str(ser[1])[:200], parallel=str(par[1])[:200])
             else:
                 bad = set(int(v) for v in rng.choice(np.arange(1, nn + 1), size=int(rng.integers(0, nn + 1)), replace=False))
                 def f(x):
